@@ -10,6 +10,8 @@ import GfsProofs.RngLemmas
 import GfsProofs.BlocksLemmas
 import GfsProofs.StrParse
 import GfsSpec.Grammar
+import GfsGen.Facts
+import GfsModel.ExpectedSrc
 
 namespace Gfs.Props.C13
 open Gfs Gfs.Spec
@@ -130,5 +132,10 @@ theorem C13_print_parse (hist : List (Int × Int × Int)) (hne : runHist hist []
 
 /-- non-vacuity: the repaired defect D1 — a wrong-signed step after another range -/
 example : Blocks.iter (runHist [(20, 20, 1), (10, 1, 2)] []) = [20, 10, 8, 6, 4, 2] := by decide
+
+/-- the declarations of /repo this property's model and specification were written from are,
+    on this run, the ones the model was last aligned with (digest of their comment- and
+    layout-insensitive fingerprints, re-extracted by tools/gofacts) -/
+theorem C13_source : Gfs.Gen.sourceDigestC13 = Gfs.expectedSourceDigestC13 := by decide
 
 end Gfs.Props.C13
